@@ -85,7 +85,7 @@ func cmdReuseTraces(args []string) {
 		must(json.Unmarshal(line, &rc))
 		n++
 		pi := n % 2
-		c := &Case{ID: id, GRL: progs[pi].GRL(), Parts: progs[pi].Parts(2), RulesJS: rules[pi], Variant: []string{"fresh", "reloaded", "multi"}[n%3], Profile: "reuse",
+		c := &Case{ID: id, GRL: progs[pi].GRL(), JSONRules: progs[pi].JSONText(), Parts: progs[pi].Parts(2), RulesJS: rules[pi], Variant: []string{"fresh", "reloaded", "multi", "json"}[n%4], Profile: "reuse",
 			Listener: 1, Counted: json.RawMessage(`{"k":"none"}`)}
 		id++
 		for _, call := range rc.Calls {
